@@ -38,7 +38,7 @@ PINNED_JS = [
 
 
 def floors(tier):
-    return {'distinct_nontrivial': 500 if tier == 'quick' else 12000, 'scenes': 350, 'multivector_leaves_decoded': 2000,
+    return {'distinct_nontrivial': 500 if tier == 'quick' else 250000, 'scenes': 350, 'multivector_leaves_decoded': 2000,
             'leaves_sparse': 400, 'leaves_dense_canonical': 80, 'leaves_dense_noncanonical': 80, 'leaves_permuted_keys': 150,
             'leaves_array_valued_expanded': 150, 'leaves_ndarray_backed': 150, 'leaves_non_float64_ndarray': 40,
             'callable_subjects': 200, 'single_callable_form': 20, 'camera_options': 20, 'algebra_traits_checked': 300,
@@ -52,7 +52,7 @@ def plan(tier, seed):
             {'p': 2, 'q': 1, 'r': 0}, {'p': 4, 'q': 0, 'r': 0}, {'p': 1, 'q': 0, 'r': 1}, {'signature': [1, -1, 0]}, {'p': 3, 'q': 1, 'r': 0}]
     if tier == 'thorough':
         cfgs += gen.pqr_all(1, 4)
-    n_s, n_d = (120, 60) if tier == 'quick' else (300, 150)
+    n_s, n_d = (120, 60) if tier == 'quick' else (6000, 3000)
     U = []
     for c in cfgs:
         for rep in range(2 if tier == 'quick' else 3):
